@@ -47,6 +47,8 @@ type CLICase struct {
 	Cwd string `json:"cwd"` // work | root | store | away : working directory where the spellings leave a choice
 	// what the store's entry says
 	KeyUnc bool `json:"key_unc"`
+	// the store's entry also says "skip-verify": true (as for the cache of a chunk server)
+	KeySkip bool `json:"key_skip,omitempty"`
 	// one more entry with the opposite setting: "" | other | sibling | parent | children | wrongcwd
 	// (none of them names the store) | dup (a second key that does match: invalid configuration)
 	Extra  string `json:"extra,omitempty"`
@@ -182,14 +184,15 @@ func genCLI(t *rapid.T) *CLICase {
 		}
 	}
 	cl := CLICase{
-		Cmd:    rapid.SampledFrom([]string{"chop", "chop", "make", "cache", "verify", "verify", "prune", "prune"}).Draw(t, "cli.cmd"),
-		Key:    rapid.SampledFrom(keys).Draw(t, "cli.key"),
-		Arg:    rapid.SampledFrom(args).Draw(t, "cli.arg"),
-		Cwd:    rapid.SampledFrom([]string{"work", "root", "store", "away"}).Draw(t, "cli.cwd"),
-		KeyUnc: rapid.IntRange(0, 3).Draw(t, "cli.keyunc") != 0,
-		Extra:  rapid.SampledFrom([]string{"", "", "other", "sibling", "parent", "children", "wrongcwd", "dup"}).Draw(t, "cli.extra"),
-		Pieces: rapid.IntRange(1, 4).Draw(t, "cli.pieces"),
-		SrcUnc: rapid.Bool().Draw(t, "cli.srcunc"),
+		Cmd:     rapid.SampledFrom([]string{"chop", "chop", "make", "cache", "verify", "verify", "prune", "prune"}).Draw(t, "cli.cmd"),
+		Key:     rapid.SampledFrom(keys).Draw(t, "cli.key"),
+		Arg:     rapid.SampledFrom(args).Draw(t, "cli.arg"),
+		Cwd:     rapid.SampledFrom([]string{"work", "root", "store", "away"}).Draw(t, "cli.cwd"),
+		KeyUnc:  rapid.IntRange(0, 3).Draw(t, "cli.keyunc") != 0,
+		KeySkip: rapid.Bool().Draw(t, "cli.keyskip"),
+		Extra:   rapid.SampledFrom([]string{"", "", "other", "sibling", "parent", "children", "wrongcwd", "dup"}).Draw(t, "cli.extra"),
+		Pieces:  rapid.IntRange(1, 4).Draw(t, "cli.pieces"),
+		SrcUnc:  rapid.Bool().Draw(t, "cli.srcunc"),
 	}
 	n := cl.norm()
 	return &n
@@ -211,8 +214,9 @@ func ruleMatch(key, loc, cwd string) bool {
 }
 
 type cfgEntry struct {
-	key string
-	unc bool
+	key  string
+	unc  bool
+	skip bool
 }
 
 // configured: the format configured for a location. matches > 1: invalid configuration.
@@ -251,6 +255,8 @@ func cliRequired() []string {
 		"cli:config:two-keys-match", "cli:config:symlink-both", "cli:config:symlink-one-side-unjudged",
 		"cli:expect:uncompressed", "cli:expect:compressed", "cli:expect:compressed-by-explicit-entry", "cli:expect:invalid-config",
 		"cli:expect:uncompressed:abs-key-rel-arg", "cli:expect:uncompressed:rel-key-abs-arg",
+		"cli:config:skip-verify-entry", "cli:expect:uncompressed+skip-verify", "cli:expect:compressed+skip-verify",
+		"cli:cmd:verify:uncompressed+skip-verify", "cli:cmd:verify:compressed+skip-verify",
 	}
 	for _, k := range cliCmds {
 		r = append(r, "cli:cmd:"+k, "cli:cmd:"+k+":uncompressed", "cli:cmd:"+k+":compressed")
@@ -334,7 +340,7 @@ func runCLI(o *hx.Outcome, c Case, data []byte) {
 	// ---- config file
 	var entries []cfgEntry
 	if cl.Key != "none" {
-		entries = append(entries, cfgEntry{key, cl.KeyUnc})
+		entries = append(entries, cfgEntry{key, cl.KeyUnc, cl.KeySkip})
 	}
 	opposite := !cl.KeyUnc || cl.Key == "none"
 	extraKey := map[string]string{"other": root + "/other", "sibling": l.work + "/st2", "parent": l.work, "children": l.store + "/*",
@@ -343,15 +349,18 @@ func runCLI(o *hx.Outcome, c Case, data []byte) {
 		extraKey = "work/st" // relative to a directory the command does not run in
 	}
 	if extraKey != "" && extraKey != key {
-		entries = append(entries, cfgEntry{extraKey, opposite})
+		entries = append(entries, cfgEntry{extraKey, opposite, false})
 	}
 	srcDir := root + "/src"
 	if cl.SrcUnc {
-		entries = append(entries, cfgEntry{srcDir, true})
+		entries = append(entries, cfgEntry{srcDir, true, false})
 	}
 	so := map[string]any{}
 	for _, e := range entries {
 		so[e.key] = map[string]any{"uncompressed": e.unc}
+		if e.skip {
+			so[e.key] = map[string]any{"uncompressed": e.unc, "skip-verify": true}
+		}
 	}
 	cfgJSON, _ := json.Marshal(map[string]any{"store-options": so})
 	cfgPath := root + "/idx/desync.json"
@@ -371,7 +380,7 @@ func runCLI(o *hx.Outcome, c Case, data []byte) {
 	}
 	var linked []cfgEntry
 	for _, e := range entries {
-		linked = append(linked, cfgEntry{throughLink(e.key), e.unc})
+		linked = append(linked, cfgEntry{throughLink(e.key), e.unc, e.skip})
 	}
 	lu, lm := configured(linked, throughLink(arg), cwd)
 	unjudged := !invalid && (lu != wantUnc || lm != matches)
@@ -493,6 +502,9 @@ func runCLI(o *hx.Outcome, c Case, data []byte) {
 	if cl.Cwd == "store" {
 		o.Class("cli:config:cwd-is-the-store")
 	}
+	if cl.KeySkip && cl.Key != "none" {
+		o.Class("cli:config:skip-verify-entry")
+	}
 	if cl.Extra != "" && cl.Extra != "dup" {
 		o.Class("cli:config:unrelated-entry-with-other-setting")
 	}
@@ -534,6 +546,9 @@ func runCLI(o *hx.Outcome, c Case, data []byte) {
 	}
 	fm := modeName(wantUnc)
 	o.Class("cli:expect:"+fm, "cli:cmd:"+cl.Cmd+":"+fm)
+	if cl.KeySkip && matches == 1 && ruleMatch(key, arg, cwd) && cl.Key != "none" {
+		o.Class("cli:expect:"+fm+"+skip-verify", "cli:cmd:"+cl.Cmd+":"+fm+"+skip-verify")
+	}
 	if matches == 1 && !wantUnc {
 		o.Class("cli:expect:compressed-by-explicit-entry")
 	}
